@@ -28,12 +28,6 @@ ASSUMPTIONS = [
 TRUSTED_EXTRA = ['py2lean/translate.py (AST subset translator), hand-written schema of the CongestionControl / estimator fields',
                  'labelling of kernel steps of the sender from taps and public snapshots (harness/tcpsim.py)']
 MSS = 512
-OBSERVATIONS = [
-    'not judged by the oracle (the property does not name the case): a new ACK that follows only one or two duplicate ACKs '
-    'also runs dupack_over(), i.e. sets cwnd = ssthresh before it is counted - from the defaults that raises cwnd from '
-    '1024 to 65535 + 512; counted in operation_histogram as observed-new-ack-after-only-1-or-2-dupacks*',
-]
-
 
 def prepare(ctx):
     from py2lean import translate
@@ -247,14 +241,13 @@ def oracle(case, sr, hist):
                 if not (close(a['rto'], b['rto']) and close(a['srtt'], b['srtt']) and close(a['dev'], b['dev'])):
                     bad('a duplicate ACK changed the RTT estimator', 'dupack-estimator', r)
             else:
-                cw0 = b['ssthresh'] if b['dup'] > 0 else b['cwnd']
-                if b['dup'] > 0:
+                # deflation to ssthresh only when fast recovery was entered (third duplicate seen); after one or two
+                # duplicates a new ACK is a plain new ACK
+                cw0 = b['ssthresh'] if b['dup'] >= 3 else b['cwnd']
+                if b['dup'] >= 3:
                     hist['oracle-new-ack-after-dupacks'] += 1
-                if b['dup'] in (1, 2):
-                    # not judged (see OBSERVATIONS): the code "deflates" to ssthresh although no fast retransmit happened
-                    hist['observed-new-ack-after-only-1-or-2-dupacks'] += 1
-                    if a['cwnd'] > b['cwnd'] + 1.000001 * mss:
-                        hist['observed-new-ack-after-only-1-or-2-dupacks-window-jumped-up'] += 1
+                elif b['dup'] > 0:
+                    hist['oracle-new-ack-after-1-or-2-dupacks-plain'] += 1
                 if case['kind'] == 'reno':
                     if cw0 <= b['ssthresh']:
                         cw = cw0 + mss
@@ -263,7 +256,8 @@ def oracle(case, sr, hist):
                         cw = cw0 + mss * mss / cw0
                         hist['oracle-congestion-avoidance'] += 1
                     if not close(a['cwnd'], cw):
-                        bad(f'new ACK: cwnd {a["cwnd"]}, the Reno rule gives {cw} (from {cw0})', 'reno-new-ack', r)
+                        bad(f'new ACK after {b["dup"]} duplicate ACKs: cwnd {a["cwnd"]}, the Reno rule gives {cw} (from {cw0})',
+                            'reno-new-ack' if b['dup'] == 0 or b['dup'] >= 3 else 'new-ack-after-1-2-dupacks', r)
                 else:
                     names = tcpsim.CUBIC_FIELDS
                     cb = dict(zip(names, b['cubic']))
@@ -271,7 +265,8 @@ def oracle(case, sr, hist):
                     hist['oracle-cubic-' + ('slow-start' if cw0 <= b['ssthresh'] else 'growth')] += 1
                     ca = dict(zip(names, a['cubic']))
                     if cw is None or not close(a['cwnd'], cw):
-                        bad(f'new ACK: cwnd {a["cwnd"]}, the CUBIC rule gives {cw} (from {cw0})', 'cubic-new-ack', r)
+                        bad(f'new ACK after {b["dup"]} duplicate ACKs: cwnd {a["cwnd"]}, the CUBIC rule gives {cw} (from {cw0})',
+                            'cubic-new-ack' if b['dup'] == 0 or b['dup'] >= 3 else 'new-ack-after-1-2-dupacks', r)
                     else:
                         for f in ('cnt', 'W_tcp', 'K', 'origin_point', 'epoch_start', 'd_min', 'cwnd_cnt', 'ack_cnt'):
                             if not close(ca[f], ce[f]):
@@ -365,7 +360,6 @@ def run(ctx):
         'observation_lines_compared': lines_compared,
         'operation_histogram': dict(sorted(hist.items())),
         'translated': translate.TRANSLATED,
-        'observations': OBSERVATIONS,
         'hand_modelled': ['TCPPacketGenerator.put (dup-ACK dispatch, timer cancellation, token)', 'TCPPacketGenerator.timeout_callback (sequence of effects)',
                           'TCPPacketGenerator.resend_packet', 'TCPPacketGenerator.run (loop around the generated guard)'],
     }
